@@ -70,6 +70,29 @@ def body_similarity(g, res, addr, base_toks):
     return difflib.SequenceMatcher(None, base_toks[addr].split(' '), cur, autojunk=False).ratio()
 
 
+def split_new_function_failures(g, res, failures):
+    """Modularity caveat: a function that did not exist when the contracts were written has no contract; a failure in it, or in a
+    function that calls it, cannot be decided (undecided, exit 2 -- not a violation).  Returns (kept, undecided, notes)."""
+    try:
+        base_fns = set(json.load(open(os.path.join(VERIF, 'contracts', 'baseline.json')))['functions'])
+    except Exception:
+        return list(failures), [], []
+    new_fns = [f for f in res.fns if f.addr not in base_fns and '#canary' not in f.addr and '#callsig' not in f.addr]
+    if not new_fns:
+        return list(failures), [], []
+    names = set(f.addr.rsplit('::', 1)[-1] for f in new_fns)
+    keep, undecided, notes = [], [], []
+    for v in failures:
+        owner = next((f for f in res.fns if f.addr == v.addr and hasattr(f, '_seg_range')), None)
+        body = ''.join(sg.text for sg in g.segs[owner._seg_range[0]:owner._seg_range[1]] if sg.origin == 'src') if owner else ''
+        if v.addr in [f.addr for f in new_fns] or any(re.search(r'\b%s\s*\(' % re.escape(n), body) for n in names):
+            undecided.append(v)
+            notes.append('undecided: %s fails in %s, which calls (or is) a function without contract (%s)' % (v.oid, v.addr, ', '.join(sorted(names))))
+        else:
+            keep.append(v)
+    return keep, undecided, notes
+
+
 def load_base_tokens():
     try:
         return json.load(open(os.path.join(VERIF, 'contracts', 'baseline.json'))).get('fn_tokens', {})
@@ -172,26 +195,8 @@ def main():
                                              rendered='syntactic ownership check (Rust drop rules) failed in %s: %s' % (x['addr'], x['why'])))
     # Modularity caveat: a function that did not exist when the contracts were written has no contract; a caller of
     # it cannot be decided (its failing obligations are "undecided", exit 2, not a violation).
-    try:
-        base_fns = set(json.load(open(os.path.join(VERIF, 'contracts', 'baseline.json')))['functions'])
-    except Exception:
-        base_fns = None
-    undecided = []
-    if base_fns is not None:
-        new_fns = [f for f in res.fns if f.addr not in base_fns and '#canary' not in f.addr and '#callsig' not in f.addr]
-        if new_fns:
-            names = set(f.addr.rsplit('::', 1)[-1] for f in new_fns)
-            keep = []
-            for v in violations:
-                owner = next((f for f in res.fns if f.addr == v.addr and hasattr(f, '_seg_range')), None)
-                body = ''.join(sg.text for sg in g.segs[owner._seg_range[0]:owner._seg_range[1]] if sg.origin == 'src') if owner else ''
-                if v.addr in [f.addr for f in new_fns] or any(re.search(r'\b%s\s*\(' % re.escape(n), body) for n in names):
-                    undecided.append(v)
-                else:
-                    keep.append(v)
-            violations = keep
-            for v in undecided:
-                run.tool_errors.append('undecided: %s fails in %s, which calls (or is) a function without contract (%s)' % (v.oid, v.addr, ', '.join(sorted(names))))
+    violations, undecided, notes_ = split_new_function_failures(g, res, violations)
+    run.tool_errors.extend(notes_)
     # Re-implementation caveat: the proof hints (anchors, asserted intermediate facts, loop invariants) were written for the body a function
     # had when its contract was admitted.  If the body has been REWRITTEN (token similarity to the baseline body below 0.5; every edit-sized
     # change in the corpus is above 0.59, the two re-implementations in it are at 0.28 / 0.30), a failing Verus obligation there may only
@@ -303,6 +308,7 @@ def main():
         'solver_seed_stability': seeds_ok,
         'unattributed_failures': [f.oid for f in unattributed],
         'changed_unverified_functions': changed_trusted,
+        'contracted_items_no_longer_present': getattr(g, 'removed_items', []),
         'exhaustive': False,
     }
     ev = {
@@ -313,6 +319,8 @@ def main():
     os.makedirs(os.path.join(VERIF, 'evidence'), exist_ok=True)
     with open(os.path.join(VERIF, 'evidence', prop + '.json'), 'w') as fh:
         json.dump(ev, fh, indent=1)
+    for a_ in getattr(g, 'removed_items', []):
+        print('NOTE: the contracted function %s no longer exists; its contract is moot, its former callers are judged by their own contracts' % a_)
     for t in run.tool_errors:
         print('TOOL-CONDITION: %s' % t[:400])
     for k in kani_tool:
